@@ -101,6 +101,12 @@ type Features struct {
 	// enclosing function.
 	IdentArg string `json:"ident_arg,omitempty"`
 	IdentPos int    `json:"ident_pos,omitempty"`
+	// MutAfter: the argument following the identifier argument has a side
+	// effect on that identifier's variable (it zeroes it); the directive must
+	// have read the identifier before.
+	MutAfter bool `json:"mut_after,omitempty"`
+	// ResultName: the variable receiving the first cff.Results value has this name.
+	ResultName string `json:"result_name,omitempty"`
 	// Pad: number of comment lines inserted before the enclosing function
 	// (moves the directive to chosen line numbers).
 	Pad int `json:"pad,omitempty"`
